@@ -213,14 +213,27 @@ Definition box_statement (sx sy sz : R) : Prop :=
   let hx := sx / 2 in let hy := sy / 2 in let hz := sz / 2 in
   box_claims 1 hx hy hz (Rmin (Rmin hx hy) hz) (6 * (sx * sy * sz)) (box_mesh (O := ROps) sx sy sz).
 
-Theorem box_mesh_exact_tiling sx sy sz : 0 < sx -> 0 < sy -> 0 < sz -> box_statement sx sy sz.
+(** elimination principle: every property of [box_mesh] for positive sizes follows from the same
+    property of [box_core] on the evaluation of a symbolic class *)
+Lemma box_mesh_elim (P : @mesh R -> Prop) sx sy sz :
+  0 < sx -> 0 < sy -> 0 < sz ->
+  (forall dx dy dz c1 c2 c3 e1 e2 e3,
+      let env := [c1; c2; c3; e1; e2; e3] in
+      let hx := peval env (sym_h dx 0) in let hy := peval env (sym_h dy 1) in let hz := peval env (sym_h dz 2) in
+      let cx := peval env (sym_c dx 0) in let cy := peval env (sym_c dy 1) in let cz := peval env (sym_c dz 2) in
+      let mh := Rmin (Rmin (sx / 2) (sy / 2)) (sz / 2) in
+      dx || dy || dz = true -> env_pos env ->
+      hx = sx / 2 -> hy = sy / 2 -> hz = sz / 2 ->
+      Rmin (hx - cx) (Rmin (hy - cy) (hz - cz)) = mh ->
+      P (box_core (O := ROps) (V hx hy hz) (V cx cy cz) dx dy dz mh)) ->
+  P (box_mesh (O := ROps) sx sy sz).
 Proof.
-  intros Hx Hy Hz. unfold box_statement, box_mesh.
+  intros Hx Hy Hz K. unfold box_mesh.
   rewrite !fmin_R, fmax_R, half_R. cbn [mul one ROps].
   replace (/ 2 * sx) with (sx / 2) by lra. replace (/ 2 * sy) with (sy / 2) by lra.
   replace (/ 2 * sz) with (sz / 2) by lra.
-  set (hx := sx / 2). set (hy := sy / 2). set (hz := sz / 2).
-  set (mh := Rmin (Rmin hx hy) hz).
+  set (hx := sx / 2) in *. set (hy := sy / 2) in *. set (hz := sz / 2) in *.
+  set (mh := Rmin (Rmin hx hy) hz) in *.
   set (tol := lit box_tol_m box_tol_k * Rmax 1 mh).
   assert (Hhx : 0 < hx) by (unfold hx; lra). assert (Hhy : 0 < hy) by (unfold hy; lra).
   assert (Hhz : 0 < hz) by (unfold hz; lra).
@@ -258,9 +271,9 @@ Proof.
     - specialize (Mx Hm). destruct Cx as [(_ & -> & _)|(? & _ & _)]; [reflexivity|lra].
     - specialize (My Hm). destruct Cy as [(_ & -> & _)|(? & _ & _)]; [apply orb_true_iff; left; apply orb_true_r|lra].
     - specialize (Mz Hm). destruct Cz as [(_ & -> & _)|(? & _ & _)]; [apply orb_true_r|lra]. }
-  pose proof (box_core_class dx dy dz (if dx then 1 else cx) (if dy then 1 else cy) (if dz then 1 else cz)
-                             (hx - cx) (hy - cy) (hz - cz) mh Hd) as CC.
-  cbv zeta in CC.
+  specialize (K dx dy dz (if dx then 1 else cx) (if dy then 1 else cy) (if dz then 1 else cz)
+                (hx - cx) (hy - cy) (hz - cz)).
+  cbv zeta in K.
   assert (E : peval [if dx then 1 else cx; if dy then 1 else cy; if dz then 1 else cz; hx - cx; hy - cy; hz - cz]
                     (sym_h dx 0) = hx /\
               peval [if dx then 1 else cx; if dy then 1 else cy; if dz then 1 else cz; hx - cx; hy - cy; hz - cz]
@@ -277,15 +290,26 @@ Proof.
     destruct Cx as [(? & -> & ?)|(? & -> & ?)], Cy as [(? & -> & ?)|(? & -> & ?)],
              Cz as [(? & -> & ?)|(? & -> & ?)]; cbn; repeat split; lra. }
   destruct E as (E1 & E2 & E3 & E4 & E5 & E6).
-  rewrite E1, E2, E3, E4, E5, E6 in CC.
+  rewrite E1, E2, E3, E4, E5, E6 in K.
   assert (Henv : env_pos [if dx then 1 else cx; if dy then 1 else cy; if dz then 1 else cz;
                           hx - cx; hy - cy; hz - cz]).
   { unfold env_pos.
     destruct Cx as [(? & -> & ?)|(? & -> & ?)], Cy as [(? & -> & ?)|(? & -> & ?)],
              Cz as [(? & -> & ?)|(? & -> & ?)]; repeat constructor; lra. }
-  specialize (CC Henv Hemin).
-  destruct CC as (A1 & A2 & A3 & A4 & A5). repeat split; try assumption.
-  rewrite A2. f_equal. unfold hx, hy, hz. field.
+  apply K; try assumption; reflexivity.
+Qed.
+
+Theorem box_mesh_exact_tiling sx sy sz : 0 < sx -> 0 < sy -> 0 < sz -> box_statement sx sy sz.
+Proof.
+  intros Hx Hy Hz. unfold box_statement. apply box_mesh_elim; try assumption.
+  intros dx dy dz c1 c2 c3 e1 e2 e3 env hx hy hz cx cy cz mh Hd Henv E1 E2 E3 Hemin.
+  pose proof (box_core_class dx dy dz c1 c2 c3 e1 e2 e3 mh Hd Henv Hemin) as CC.
+  fold env hx hy hz cx cy cz in CC.
+  set (m := box_core (V hx hy hz) (V cx cy cz) dx dy dz mh) in *.
+  destruct CC as (A1 & A2 & A3 & A4 & A5).
+  rewrite E1, E2, E3 in A2, A3, A5.
+  split; [exact A1|split; [|split; [exact A3|split; [exact A4|exact A5]]]].
+  rewrite A2. f_equal. field.
 Qed.
 
 (** ** make_tetrahedral_cube, all sizes: one parameter S = size / 2 (variable 0) *)
